@@ -15,9 +15,14 @@ Extra forms
 """
 import ast
 import os
+import sys
 
-import extract
-from extract import ExtractError, Tr
+_main = sys.modules.get("__main__")
+if _main is not None and os.path.basename(getattr(_main, "__file__", "") or "") == "extract.py" and hasattr(_main, "Tr"):
+    extract = _main  # `python3 extract.py`: subclass the classes of the running script, not of a second copy of the module
+else:
+    import extract
+ExtractError, Tr = extract.ExtractError, extract.Tr
 
 _CMP = {"greater": ">", "greater_equal": "≥", "less": "<", "less_equal": "≤"}
 _NP = ("onp", "jnp", "np", "numpy")
